@@ -244,6 +244,10 @@ def isnone(t):
 def norm_guard(c, p):
     while isinstance(c, tuple) and c and c[0] == "not":
         c, p = c[1], not p
+    # a regular-expression match result is None or a (truthy) match object: ``m is None`` is ``not m``
+    if isinstance(c, tuple) and c and c[0] == "cmp" and c[1] == "Is" and is_const(c[3], None) and isinstance(c[2], tuple) and c[2] \
+            and c[2][0] == "call" and c[2][1] in ("re.match", "re.search", "re.fullmatch"):
+        c, p = c[2], not p
     return (c, p)
 
 
